@@ -60,7 +60,7 @@ func (f *File) IsDir() bool {
 func (f *File) getData() []byte {
 	f.dataMU.RLock()
 	defer f.dataMU.RUnlock()
-	return f.data
+	return append([]byte{}, f.data...)
 }
 
 // setData set new file data bytes
